@@ -3,7 +3,7 @@
 src="$1"; name="$2"
 wt=/tmp/confirm-$name
 git -C /repo worktree remove --force $wt >/dev/null 2>&1
-git -C /repo worktree add --detach $wt 8167330 >/dev/null 2>&1 || { echo "{\"name\":\"$name\",\"error\":\"worktree\"}"; exit 1; }
+git -C /repo worktree add --detach $wt ${BASE:-8167330} >/dev/null 2>&1 || { echo "{\"name\":\"$name\",\"error\":\"worktree\"}"; exit 1; }
 cd $wt
 PYTHONPATH=$wt timeout 600 /venv/bin/python $src/demo.py >/tmp/confirm-$name.clean.log 2>&1; clean=$?
 git apply $src/patch.diff; applied=$?
@@ -11,4 +11,4 @@ tests=$(timeout 900 /venv/bin/python -m pytest -q -p no:cacheprovider --timeout=
 PYTHONPATH=$wt timeout 600 /venv/bin/python $src/demo.py >/tmp/confirm-$name.mut.log 2>&1; mut=$?
 cd /
 git -C /repo worktree remove --force $wt
-echo "{\"name\":\"$name\",\"base_commit\":\"8167330\",\"patch_applies\":$applied,\"demo_exit_clean\":$clean,\"demo_exit_mutant\":$mut,\"tests\":\"$tests\"}"
+echo "{\"name\":\"$name\",\"base_commit\":\"${BASE:-8167330}\",\"patch_applies\":$applied,\"demo_exit_clean\":$clean,\"demo_exit_mutant\":$mut,\"tests\":\"$tests\"}"
